@@ -282,5 +282,11 @@ def ceval(e, env):
         ops = {"+": lambda: a + b, "-": lambda: a - b, "*": lambda: a * b, "<": lambda: int(a < b), ">": lambda: int(a > b),
                "<=": lambda: int(a <= b), ">=": lambda: int(a >= b), "==": lambda: int(a == b), "!=": lambda: int(a != b)}
         if e.op in ops:
-            return ops[e.op]()
+            r = ops[e.op]()
+            if e.op in ("+", "-", "*") and env.get("__int32__") and (e.ty or "").strip() == "int" and isinstance(r, int):
+                # C 'int' arithmetic as the compilers of this package implement it: two's complement wrap-around (formally undefined)
+                if not -2 ** 31 <= r < 2 ** 31:
+                    env.setdefault("__overflow__", []).append(estr(e))
+                    r = (r + 2 ** 31) % 2 ** 32 - 2 ** 31
+            return r
     raise NotEvaluable(estr(e))
